@@ -523,6 +523,98 @@ func PNGBackShape(r *core.Rng) ([]byte, string) {
 	return out, fmt.Sprintf("pngback target=%d length=%#x len=%d", target, length, len(out))
 }
 
+// XMPShape is a generated packet (xpacket wrapper present, so a trailer follows the root
+// element) damaged at token level: an end tag removed, the root end tag removed, a processing
+// instruction / comment / CDATA section / stray '<' inserted between elements, two end tags
+// swapped, a start tag duplicated, or the packet cut.
+func XMPShape(r *core.Rng) ([]byte, string) {
+	st := RandXMPStyle(r, r.Bool())
+	st.Leading = "<?xpacket begin=\"\xef\xbb\xbf\" id=\"W5M0MpCehiHzreSzNTczkc9d\"?>\n"
+	pk := string(GenXMPRec(r, 50, 120).Serialise(r, st, r.Intn(3)))
+	// token boundaries: positions of '<'
+	var lt []int
+	for i := 0; i < len(pk); i++ {
+		if pk[i] == '<' {
+			lt = append(lt, i)
+		}
+	}
+	ops := ""
+	for k := r.Range(1, 3); k > 0 && len(lt) > 4; k-- {
+		p := lt[r.Range(2, len(lt)-1)]
+		switch op := r.Intn(8); op {
+		case 0: // remove an end tag
+			var ends []int
+			for _, q := range lt {
+				if q+1 < len(pk) && pk[q+1] == '/' {
+					ends = append(ends, q)
+				}
+			}
+			if len(ends) > 0 {
+				q := ends[r.Intn(len(ends))]
+				e := q
+				for e < len(pk) && pk[e] != '>' {
+					e++
+				}
+				if e < len(pk) {
+					pk = pk[:q] + pk[e+1:]
+				}
+				ops += "del-endtag;"
+			}
+		case 1: // remove the root end tag (the trailer then follows an open element)
+			if i := indexOf(pk, "</x:xmpmeta"); i >= 0 {
+				e := i
+				for e < len(pk) && pk[e] != '>' {
+					e++
+				}
+				if e < len(pk) {
+					pk = pk[:i] + pk[e+1:]
+				}
+				ops += "del-root-end;"
+			}
+		case 2:
+			pk = pk[:p] + r.PickStr("<?pi x?>", "<?xpacket end=\"w\"?>", "<?", "<? ?>", "<?x") + pk[p:]
+			ops += "ins-pi;"
+		case 3:
+			pk = pk[:p] + r.PickStr("<!-- c -->", "<!--", "<![CDATA[x]]>", "<!DOCTYPE x>") + pk[p:]
+			ops += "ins-comment;"
+		case 4:
+			pk = pk[:p] + r.PickStr("<", "<<", "< ", "</", "</>", "<>", "<a", "<a:b", "<a:b ") + pk[p:]
+			ops += "ins-lt;"
+		case 5: // duplicate a start tag
+			e := p
+			for e < len(pk) && pk[e] != '>' {
+				e++
+			}
+			if e < len(pk) {
+				pk = pk[:p] + pk[p:e+1] + pk[p:]
+			}
+			ops += "dup-tag;"
+		case 6:
+			pk = pk[:r.Range(40, len(pk))]
+			ops += "cut;"
+		default: // an attribute without value / with a lone quote
+			pk = pk[:p] + r.PickStr("<rdf:Description a", "<rdf:Description a=", "<rdf:Description a='", "<rdf:li xml:lang") + pk[p:]
+			ops += "ins-attr;"
+		}
+		lt = lt[:0]
+		for i := 0; i < len(pk); i++ {
+			if pk[i] == '<' {
+				lt = append(lt, i)
+			}
+		}
+	}
+	return []byte(pk), fmt.Sprintf("xmpshape ops=%s len=%d", ops, len(pk))
+}
+
+func indexOf(s, sub string) int {
+	for i := 0; i+len(sub) <= len(s); i++ {
+		if s[i:i+len(sub)] == sub {
+			return i
+		}
+	}
+	return -1
+}
+
 // Shape draws one grammar-based hostile input of any family.
 func Shape(r *core.Rng) ([]byte, string) {
 	switch r.Intn(12) {
@@ -534,6 +626,8 @@ func Shape(r *core.Rng) ([]byte, string) {
 		return PNGBackShape(r)
 	case 5:
 		return AlignedCR3Shape(r)
+	case 6, 7:
+		return XMPShape(r)
 	}
 	return BMFFShape(r)
 }
